@@ -217,6 +217,10 @@ def run_feature(shard, ctx):
                     ref[r] = -0.5 * (v[1] + np.trace(Li @ Sc)) + const
                 if cert:
                     ctx.close("feature.log_conditional.value", got, ref, facts=facts)
+                    with ctx.guard("feature.log_conditional.px_supplied", facts):
+                        ix = list(range(Dy, Dy + Dx))
+                        pxs = objs.mk_pdf("GaussianPDF", np.array([Sq[r][np.ix_(ix, ix)] for r in range(Rq)]), mq[:, ix])
+                        ctx.close("feature.log_conditional.px_supplied", np.asarray(cond.integrate_log_conditional(q, p_x=pxs)), ref, facts=facts)
                     if vi == 0 and Rq == 1:
                         ctx.sample(dict(shard=shard["id"], q_mu=mq, q_Sigma=Sq, expected=ref, nodes_per_panel=ns))
                 else:
